@@ -2,6 +2,7 @@
    Punop/Pnarop, Pwrap, Pif, Pdiff, Pseries/Pgeom, Pflatten, Place, Ptuple, seeded Prand/Pxrand/Pwhite. *)
 From Coq Require Import ZArith QArith Qround List Bool Lia PeanoNat.
 Require Import SC3.lib.PyNum SC3.gen.Gen_builtins SC3.model.Pattern SC3.proofs.C13_sound SC3.proofs.C13_meaning.
+Require Import SC3.proofs.C13_kernmix.
 Import ListNotations.
 
 (* ---------------------------------------------- Pcollect / Pselect / Preject *)
@@ -132,6 +133,39 @@ Proof.
   - destruct M as [|M]; [lia|]. cbn [repeat tflat flat_map]. cbn in HM.
     rewrite (IH e M) by lia. unfold flat_levels. rewrite Hn.
     destruct v; reflexivity.
+Qed.
+
+(* ------------------ wrap / fold with any int-float mix of element and bounds *)
+Lemma narop_wrap_mixed a b c : is_ok a = true -> is_ok b = true -> is_ok c = true ->
+  andb (is_int a) (andb (is_int b) (is_int c)) = false -> (toQ b < toQ c)%Q ->
+  exists r, narop NWrap (VN a) (VN b) (VN c) = Some (VN r) /\ (toQ b <= toQ r)%Q /\ (toQ r < toQ c)%Q.
+Proof.
+  intros Ha Hb Hc Hm H. destruct (wrap_mixed_range a b c Ha Hb Hc Hm H) as [[R1 R2] Ro].
+  exists (py_wrap a b c). cbn [narop]. split; [|split; assumption].
+  unfold ret_num. destruct (py_wrap a b c); try reflexivity. discriminate Ro.
+Qed.
+Lemma narop_fold_mixed a b c : is_ok a = true -> is_ok b = true -> is_ok c = true ->
+  andb (is_int a) (andb (is_int b) (is_int c)) = false -> (toQ b < toQ c)%Q ->
+  exists r, narop NFold (VN a) (VN b) (VN c) = Some (VN r) /\ (toQ b <= toQ r)%Q /\ (toQ r <= toQ c)%Q.
+Proof.
+  intros Ha Hb Hc Hm H. destruct (fold_mixed_range a b c Ha Hb Hc Hm H) as [[R1 R2] Ro].
+  exists (py_fold a b c). cbn [narop]. split; [|split; assumption].
+  unfold ret_num. destruct (py_fold a b c); try reflexivity. discriminate Ro.
+Qed.
+Lemma twrap_const_bounds b c : is_ok b = true -> is_ok c = true -> andb (is_int b) (is_int c) = false ->
+  (toQ b < toQ c)%Q -> forall l e M, (length l < M)%nat ->
+  Forall (fun v => exists a, v = VN a /\ is_ok a = true) l ->
+  exists l', twrap l e (repeat (VN b) M) EMore (repeat (VN c) M) EMore = (l', e) /\ length l' = length l /\
+             Forall (fun v => exists r, v = VN r /\ (toQ b <= toQ r)%Q /\ (toQ r < toQ c)%Q) l'.
+Proof.
+  intros Hb Hc Hm H. induction l as [|v l IH]; intros e M HM Hl.
+  - destruct M; [lia|]. exists []. repeat split; constructor.
+  - destruct M as [|M]; [lia|]. inversion Hl as [|? ? (a & Ea & Ha) Hl']; subst.
+    assert (Hmix : andb (is_int a) (andb (is_int b) (is_int c)) = false) by (rewrite Hm; apply andb_false_r).
+    destruct (narop_wrap_mixed a b c Ha Hb Hc Hmix H) as (r & Er & R1 & R2).
+    destruct (IH e M) as (l' & E1 & E2 & E3). cbn in HM. lia. exact Hl'.
+    exists (VN r :: l'). cbn [repeat twrap]. rewrite Er. unfold twrap in E1. rewrite E1. repeat split.
+    cbn. rewrite E2. reflexivity. constructor; [|exact E3]. exists r. repeat split; assumption.
 Qed.
 
 (* ---------------------------------------------------------------- Place *)
@@ -342,6 +376,17 @@ Proof.
   change (den (S (S k)) m (Pwrap q (PVal lo) (PVal hi)))
     with (twrap (fst (den (S k) Str q)) (snd (den (S k) Str q)) (repeat lo k) EMore (repeat hi k) EMore).
   rewrite H. apply twrap_const; assumption.
+Qed.
+Lemma pwrap_bounds_l k m q b c l e : den (S k) Str q = (l, e) -> (length l < k)%nat ->
+  Forall (fun v => exists a, v = VN a /\ is_ok a = true) l ->
+  is_ok b = true -> is_ok c = true -> andb (is_int b) (is_int c) = false -> (toQ b < toQ c)%Q ->
+  exists l', den (S (S k)) m (Pwrap q (PVal (VN b)) (PVal (VN c))) = (l', e) /\ length l' = length l /\
+             Forall (fun v => exists r, v = VN r /\ (toQ b <= toQ r)%Q /\ (toQ r < toQ c)%Q) l'.
+Proof.
+  intros H Hl Hn Hb Hc Hm Hlt.
+  change (den (S (S k)) m (Pwrap q (PVal (VN b)) (PVal (VN c))))
+    with (twrap (fst (den (S k) Str q)) (snd (den (S k) Str q)) (repeat (VN b) k) EMore (repeat (VN c) k) EMore).
+  rewrite H. apply twrap_const_bounds; assumption.
 Qed.
 Lemma pif_l k m c x y lc ec : den (S k) Str c = (lc, ec) -> (length lc <= k)%nat ->
   den (S (S k)) m (Pif c (PVal x) (PVal y)) = (map (fun v => if truthy v then x else y) lc, ec).
